@@ -59,3 +59,38 @@ Definition chk_select_many (buf : list Z) (off len stride : Z) (idxs script : li
   | Panic, OM_Panic b' => zlist_eqb buf b'
   | _, _ => false
   end.
+
+(* ---- element types whose order is coarser than identity (N64: -0 = +0; records ordered by a key) ----
+   An element is 2 * key + tag; the order looks at the key only.  The models are the same generic
+   routines (Sort/Partition.v, Sort/Select.v, whose theorems hold for every total transitive leb),
+   instantiated at this preorder: equal keys are NOT interchangeable, every element keeps its identity. *)
+Definition leb_half (a b : Z) : bool := (a / 2 <=? b / 2)%Z.
+
+Definition m_partition_half (buf : list Z) (off len stride p : Z) : res (nat * list Z) :=
+  let cs := cells (mkview off len stride) in
+  if idx_in_range p (zn len) then
+    lift_op (fun l => partition Z leb_half l (zn p)) buf cs
+  else Panic.
+
+Definition chk_partition_half (buf : list Z) (off len stride p : Z) (o : obs_part) : bool :=
+  match m_partition_half buf off len stride p, o with
+  | Ok (k, b), OP_Ok k' b' => Z.eqb (nz k) k' && zlist_eqb b b'
+  | Panic, OP_Panic b' => zlist_eqb buf b'
+  | _, _ => false
+  end.
+
+Definition m_select_half (buf : list Z) (off len stride i : Z) (script : list Z)
+  : res (Z * list Z * nat) :=
+  let cs := cells (mkview off len stride) in
+  if idx_in_range i (zn len) then
+    l <- vread buf cs ;;
+    r <- select Z leb_half (S (zn len)) (script_pick script) 0 l (zn i) ;;
+    let '(v, l', c) := r in Ok (v, vwrite buf cs l', c)
+  else Panic.
+
+Definition chk_select_half (buf : list Z) (off len stride i : Z) (script : list Z) (o : obs_sel) : bool :=
+  match m_select_half buf off len stride i script, o with
+  | Ok (v, b, c), OS_Ok v' b' c' => Z.eqb v v' && zlist_eqb b b' && Z.eqb (nz c) c'
+  | Panic, OS_Panic b' => zlist_eqb buf b'
+  | _, _ => false
+  end.
